@@ -86,10 +86,14 @@ def _expr(rso, b, row, style):
     cz = np.array(row.get('cz', [0.0] * d), float)
     c0 = float(row.get('c0', 0.0))
     terms = []
-    if ax.any():
+    if ax.any() and not (Az.any() and style in ('F', 'G')):
         terms.append(ax @ x)
     if Az.any():
-        if style == 'A':
+        if style == 'F':          # random affine with a constant part, times decisions
+            terms.append(((Az.T @ z) + ax) @ x)
+        elif style == 'G':
+            terms.append(x @ (ax + (Az.T @ z)))
+        elif style == 'A':
             terms.append(z @ (Az @ x))
         elif style == 'B':
             terms.append((Az.T @ z) @ x)
@@ -104,9 +108,9 @@ def _expr(rso, b, row, style):
     if ny:
         by = np.array(row.get('by', [0.0] * ny), float)
         if by.any():
-            if style in ('A', 'C'):
+            if style in ('A', 'C', 'F'):
                 terms.append(by @ y)
-            elif style in ('B', 'E'):
+            elif style in ('B', 'E', 'G'):
                 terms.append((y * by).sum())
             else:
                 t = None
